@@ -41,6 +41,15 @@ fn sink_record() {
     };
     let bytes = Message::new(conf, None).as_bytes();
     std::hint::black_box(dlt_core::parse::dlt_message(&bytes, None, false).is_ok());
+    // ... and shows a scaled signal in physical units
+    let scaled = Argument {
+        type_info: TypeInfo { kind: TypeInfoKind::UnsignedFixedPoint(FloatWidth::Width32), coding: StringCoding::ASCII, has_variable_info: true, has_trace_info: false },
+        name: Some("rpm".to_string()),
+        unit: Some("1/min".to_string()),
+        fixed_point: Some(FixedPoint { quantization: 0.5, offset: FixedPointValue::I32(10) }),
+        value: Value::U32(3000),
+    };
+    std::hint::black_box(scaled.to_real_value());
 }
 struct NullLogger;
 impl log::Log for NullLogger {
